@@ -2344,8 +2344,11 @@ apply_window_scale_option (PseudoTcpSocket *self, guint8 scale_factor)
 {
    PseudoTcpSocketPrivate *priv = self->priv;
 
-   priv->swnd_scale = scale_factor;
-   DEBUG (PSEUDO_TCP_DEBUG_NORMAL, "Setting scale factor to %u", scale_factor);
+   /* RFC 7323, §2.3: a shift count above 14 must be treated as 14. Larger
+    * values would also make the window shifts undefined behaviour. */
+   priv->swnd_scale = MIN (scale_factor, 14);
+   DEBUG (PSEUDO_TCP_DEBUG_NORMAL, "Setting scale factor to %u",
+       priv->swnd_scale);
 }
 
 static void
